@@ -4,6 +4,6 @@ CONSTANTS
   Variant = "absolute"
   TicksPerT = 3
   BodyUnits = 20
-INVARIANTS NoPartialDoc ElapsedBounded
+INVARIANTS NoPartialDoc ElapsedBounded NeverUnwatched
 PROPERTY EventuallyReturns
 CHECK_DEADLOCK FALSE
